@@ -1,65 +1,93 @@
-(* C18 — executable model of the subprocess output adapter and of Execute / Output.
-   Mirrors, in the repaired tree (fixes "subprocess output lines are no longer split across pipe reads" and "Execute
-   reports a context error when the command was interrupted by its context"):
-     utils/subprocess/logging.go          logStreamer.Write :32-46, Flush :48-52, logPending :54-65, flushWriter :78-82
-     utils/subprocess/command_wrapper.go  cmdWrapper.Run :53-62, flushOutput :88-93, createCommand :121-130 (one adapter
-                                          per stream), ConvertCommandError :173
-     utils/proc/errors.go                 ConvertProcessError :25-50
-     utils/subprocess/messaging.go        LogStart :31-35, LogEnd :59-68
-     utils/subprocess/executor.go         Execute :241-272, OutputAsWithEnvironment :104-125.
+(* C18 — executable model of the subprocess output adapter and of Execute / Output, PARAMETERISED by the record of facts
+   (Facts.v) which translator-c18 extracts from the working tree into Gen.v: the model is an interpreter of those facts,
+   so an edit of the anchored code changes the model that is evaluated in the correspondence and the record the
+   theorems are instantiated with.
+   Mirrors utils/subprocess/logging.go (logStreamer.Write, Flush, logPending, newLogStreamer), command_wrapper.go
+   (cmdWrapper.Run: Start, context watcher, Wait, group kill, flushOutput, ConvertCommandError; createCommand),
+   proc/errors.go (ConvertProcessError), messaging.go (LogStart, LogEnd), executor.go (Execute, OutputAsWithEnvironment).
    Bytes are [Z]; a stream is the list of chunks the adapter's Write receives (the successive reads of the pipe).
    Assumed (validated by the correspondence runs, not proved): the pipe hands the child's bytes of one stream to that
-   stream's adapter in order, each exactly once, and all of it before exec.Cmd.Run returns; the two streams are
-   delivered by two goroutines in an arbitrary interleaving (the model takes the interleaving as an input).
+   stream's adapter in order, each exactly once, and all of it before Wait returns; the two streams are delivered by two
+   goroutines in an arbitrary interleaving (the model takes the interleaving as an input).
    Definitions only; proofs are in Proofs.v. *)
 From Coq Require Import List ZArith Bool.
 Import ListNotations.
+From GU Require Export C18.Facts.
 Local Open Scope Z_scope.
 
 Definition bytes := list Z.
-Definition NL : Z := 10.   (* lineSep = platform.UnixLineSeparator() = "\n"; '\r' is an ordinary byte *)
+Definition nonempty (b : bytes) : bool := match b with [] => false | _ => true end.
 
-(* strings.Split(s, "\n"): the pieces between separators; never the empty list. *)
-Fixpoint split_nl (s : bytes) : list bytes :=
+(* strings.Split(s, sep) for a one-byte separator: the pieces between separators; never the empty list. *)
+Fixpoint split_on (sp : Z) (s : bytes) : list bytes :=
   match s with
   | [] => [[]]
-  | c :: r => if c =? NL then [] :: split_nl r
-              else match split_nl r with
+  | c :: r => if c =? sp then [] :: split_on sp r
+              else match split_on sp r with
                    | [] => [[c]]
                    | p :: ps => (c :: p) :: ps
                    end
   end.
 
-Definition nonempty (b : bytes) : bool := match b with [] => false | _ => true end.
-
 (* ---- the reference: the non-empty lines of a whole stream (what the property demands to be logged) ---- *)
-Definition lines_of (s : bytes) : list bytes := filter nonempty (split_nl s).
+Definition lines_of (sp : Z) (s : bytes) : list bytes := filter nonempty (split_on sp s).
+
+(* The adapter BEFORE the fix (logging.go:26-39 at bc1ce85a): every chunk split and logged on its own, nothing carried.
+   Kept only to document why the carry-over is needed (Props.v: unbuffered_adapter_splits_lines). *)
+Definition stream_log_nocarry (sp : Z) (chunks : list bytes) : list bytes := flat_map (lines_of sp) chunks.
+
+Inductive entry := EStart | ELine (s : stream) (m : bytes) | EEndOk | EEndFail.
+Inductive ctxk := CtxCancelled | CtxDeadline.
+
+(* How the run of the command ended, as exec.Cmd sees it. *)
+Inductive outcome :=
+  | Exited (code : Z)        (* the child ran and exited with this status *)
+  | Signaled (sig : Z)       (* the child ran and was terminated by this signal *)
+  | StartCtx (k : ctxk)      (* cmd.Start refused to start: the context was already done (returns ctx.Err()) *)
+  | StartNotFound            (* exec.ErrNotFound: no such executable in $PATH *)
+  | StartFailed.             (* any other failure of cmd.Start (fork/exec error) *)
+
+(* Error kinds the caller can distinguish. *)
+Inductive errk := ENil | EExit (code : Z) | EProcessDone | ESignal (sig : Z) | ECancelled | ETimeout | ENotFound | EOther.
+Definition is_nil (e : errk) : bool := match e with ENil => true | _ => false end.
+
+Section Model.
+Variable F : facts.
 
 (* ---- logStreamer ---- *)
 
-(* logStreamer.logPending (logging.go): logs the pending line unless it is empty; pending is reset by the caller below. *)
-Definition log_pending (pend : bytes) : list bytes := if nonempty pend then [pend] else [].
+(* logPending: the messages it sends, and what is pending afterwards. *)
+Definition lp_msgs (pend : bytes) : list bytes :=
+  if lp_drops_empty F && negb (nonempty pend) then [] else [pend].
+Definition lp_next (pend : bytes) : bytes := if lp_resets F then [] else pend.
 
-(* logStreamer.Write, the loop over lines[0..last-1] and the final carry-over:
-     for i := 0; i < last; i++ { pending += lines[i]; logPending() }   pending += lines[last]
-   returns (messages logged by this Write, new pending). *)
-Fixpoint write_pieces (pend : bytes) (pieces : list bytes) : list bytes * bytes :=
-  match pieces with
-  | [] => ([], pend)                       (* unreachable: Split never returns an empty slice *)
-  | p :: ps =>
-      match ps with
-      | [] => ([], pend ++ p)               (* lines[last]: carried over *)
-      | _ :: _ => let '(out, pend') := write_pieces [] ps in (log_pending (pend ++ p) ++ out, pend')
-      end
+(* a statement list of Write / Flush run on the current element; state = (messages logged so far, pending) *)
+Fixpoint run_ops (ops : list wop) (piece : bytes) (st : list bytes * bytes) : list bytes * bytes :=
+  match ops with
+  | [] => st
+  | WAppend :: r => run_ops r piece (fst st, snd st ++ piece)
+  | WLogPending :: r => run_ops r piece (fst st ++ lp_msgs (snd st), lp_next (snd st))
+  | WReset :: r => run_ops r piece (fst st, [])
+  | WSkipEmpty :: r => if nonempty piece then run_ops r piece st else st
   end.
 
-(* logStreamer.Write(p): strings.Split(string(p), lineSep) then the loop above. *)
-Definition write_chunk (pend : bytes) (p : bytes) : list bytes * bytes := write_pieces pend (split_nl p).
+(* Write: the loop over lines[0..last-1], then the statements on lines[last]. *)
+Fixpoint write_pieces (st : list bytes * bytes) (pieces : list bytes) : list bytes * bytes :=
+  match pieces with
+  | [] => st                                  (* unreachable: Split never returns an empty slice *)
+  | p :: ps => match ps with
+               | [] => run_ops (tail_ops F) p st
+               | _ :: _ => write_pieces (run_ops (loop_ops F) p st) ps
+               end
+  end.
 
-(* logStreamer.Flush(): logPending(). *)
-Definition flush (pend : bytes) : list bytes := log_pending pend.
+(* logStreamer.Write(p): returns (messages logged by this Write, new pending). *)
+Definition write_chunk (pend : bytes) (p : bytes) : list bytes * bytes :=
+  write_pieces ([], pend) (split_on (sep F) p).
 
-(* A stream = the chunks given to successive Writes. *)
+(* logStreamer.Flush() *)
+Definition flush (pend : bytes) : list bytes * bytes := run_ops (flush_ops F) [] ([], pend).
+
 Fixpoint write_stream (pend : bytes) (chunks : list bytes) : list bytes * bytes :=
   match chunks with
   | [] => ([], pend)
@@ -67,74 +95,26 @@ Fixpoint write_stream (pend : bytes) (chunks : list bytes) : list bytes * bytes 
                let '(o2, p2) := write_stream p1 cs in (o1 ++ o2, p2)
   end.
 
-(* Everything one adapter logs for a stream: all Writes, then the Flush after Run/Wait has returned. *)
+(* Everything one adapter logs for a stream: all Writes, then the Flush after Wait has returned. *)
 Definition stream_log (chunks : list bytes) : list bytes :=
-  let '(o, p) := write_stream [] chunks in o ++ flush p.
+  let '(o, p) := write_stream [] chunks in o ++ fst (flush p).
 
-(* The adapter BEFORE the fix (logging.go:26-39 at bc1ce85a): every chunk split and logged on its own, nothing carried.
-   Kept only to document why the carry-over is needed (Props.v: unbuffered_adapter_refuted). *)
-Definition write_chunk_nocarry (p : bytes) : list bytes := filter nonempty (split_nl p).
-Definition stream_log_nocarry (chunks : list bytes) : list bytes := flat_map write_chunk_nocarry chunks.
+(* ---- the two adapters of a command (createCommand) ---- *)
 
-(* ---- Execute ---- *)
-
-Inductive stream := SOut | SErr.
-
-(* What the loggers receive, in order: the start message (messaging.LogStart), a line of the child on one of the two
-   streams, the success / failure message (messaging.LogEnd). *)
-Inductive entry := EStart | ELine (s : stream) (m : bytes) | EEndOk | EEndFail.
-
-Inductive ctxk := CtxCancelled | CtxDeadline.
-
-(* How the run of the command ended, as exec.Cmd.Run sees it. *)
-Inductive outcome :=
-  | Exited (code : Z)        (* the child ran and exited with this status *)
-  | Signaled (sig : Z)       (* the child ran and was terminated by this signal *)
-  | StartCtx (k : ctxk)      (* cmd.Start refused to start: the context was already done (returns ctx.Err()) *)
-  | StartNotFound            (* exec.ErrNotFound / ErrDot: no such executable in $PATH *)
-  | StartFailed.             (* any other failure of cmd.Start (fork/exec error) *)
-
-(* Error kinds the caller can distinguish. *)
-Inductive errk := ENil | EExit (code : Z) | EProcessDone | ESignal (sig : Z) | ECancelled | ETimeout | ENotFound | EOther.
-
-(* cmdWrapper.Run: ConvertCommandError(cmd.Run()) = proc.ConvertProcessError (proc/errors.go:25-50):
-   nil stays nil; context errors become ErrCancelled / ErrTimeout; "signal: killed" / "signal: terminated" become
-   os.ErrProcessDone; ErrNotFound is wrapped as commonerrors.ErrNotFound; everything else (ExitError) is returned as is. *)
-Definition convert_process_error (o : outcome) : errk :=
-  match o with
-  | Exited c => if c =? 0 then ENil else EExit c
-  | Signaled s => if (s =? 9) || (s =? 15) then EProcessDone else ESignal s
-  | StartCtx CtxCancelled => ECancelled
-  | StartCtx CtxDeadline => ETimeout
-  | StartNotFound => ENotFound
-  | StartFailed => EOther
-  end.
-
-(* Execute (executor.go), after cmd.Run():  if err != nil and the process context is done, the error is the context's kind
-   (fix "Execute reports a context error when the command was interrupted by its context"). [ctx] = state of the process
-   context when Run returns. *)
-Definition execute_error (ctx : option ctxk) (o : outcome) : errk :=
-  match convert_process_error o with
-  | ENil => ENil
-  | e => match ctx with
-         | Some CtxCancelled => ECancelled
-         | Some CtxDeadline => ETimeout
-         | None => e
-         end
-  end.
+(* which logger an adapter created with isStdErr = flag sends its lines to *)
+Definition route (flag : bool) : stream := if lp_by_stream F then (if flag then SErr else SOut) else SOut.
+Definition out_route : stream := route (stdout_flag F).
+Definition err_route : stream := route (stderr_flag F).
 
 Definition tag (s : stream) (ms : list bytes) : list entry := map (ELine s) ms.
 
-(* One pipe read delivered to the adapter of its stream (cmd.Stdout / cmd.Stderr, command_wrapper.go createCommand).
-   The state is (pending of the stdout adapter, pending of the stderr adapter). *)
+(* One pipe read delivered to the adapter of its stream. State = (pending of cmd.Stdout's adapter, of cmd.Stderr's). *)
 Definition write_event (a : bytes * bytes) (ev : stream * bytes) : list entry * (bytes * bytes) :=
   match ev with
-  | (SOut, p) => let '(ms, po) := write_chunk (fst a) p in (tag SOut ms, (po, snd a))
-  | (SErr, p) => let '(ms, pe) := write_chunk (snd a) p in (tag SErr ms, (fst a, pe))
+  | (SOut, p) => let '(ms, po) := write_chunk (fst a) p in (tag out_route ms, (po, snd a))
+  | (SErr, p) => let '(ms, pe) := write_chunk (snd a) p in (tag err_route ms, (fst a, pe))
   end.
 
-(* The reads of both pipes in the order in which the two copying goroutines deliver them (any interleaving);
-   all of them happen before cmd.Run returns. *)
 Fixpoint run_events (a : bytes * bytes) (evs : list (stream * bytes)) : list entry * (bytes * bytes) :=
   match evs with
   | [] => ([], a)
@@ -142,28 +122,99 @@ Fixpoint run_events (a : bytes * bytes) (evs : list (stream * bytes)) : list ent
                let '(o2, a2) := run_events a1 r in (o1 ++ o2, a2)
   end.
 
-(* cmdWrapper.flushOutput: flushWriter(cmd.Stdout); flushWriter(cmd.Stderr). *)
-Definition flush_output (a : bytes * bytes) : list entry := tag SOut (flush (fst a)) ++ tag SErr (flush (snd a)).
+(* cmdWrapper.flushOutput, as called by Run. *)
+Definition flush_one (a : bytes * bytes) (s : stream) : list entry :=
+  match s with
+  | SOut => tag out_route (fst (flush (fst a)))
+  | SErr => tag err_route (fst (flush (snd a)))
+  end.
+Definition flush_output (a : bytes * bytes) : list entry :=
+  if run_flush F then flat_map (flush_one a) (flush_streams F) else [].
 
-Definition end_entry (e : errk) : entry := match e with ENil => EEndOk | _ => EEndFail end.
+(* all the child's lines of one run: the reads of both pipes in the order in which the two copying goroutines deliver
+   them, all before Wait returns; then flushOutput *)
+Definition child_log (evs : list (stream * bytes)) : list entry :=
+  let '(logged, a) := run_events ([], []) evs in logged ++ flush_output a.
 
-(* Subprocess.Execute: LogStart; cmd.Run() [= all pipe reads, then flushOutput]; LogEnd(err).
-   [with_msgs] = withAdditionalMessages (true for New/Execute, false for Output's plain subprocess).
-   If the command could not be started there is no child and hence no event. *)
-Definition execute (with_msgs : bool) (ctx : option ctxk) (o : outcome) (events : list (stream * bytes))
-  : list entry * errk :=
-  let evs := match o with Exited _ | Signaled _ => events | _ => [] end in
-  let '(logged, a) := run_events ([], []) evs in
-  let e := execute_error ctx o in
-  ((if with_msgs then [EStart] else []) ++ (logged ++ flush_output a) ++ (if with_msgs then [end_entry e] else []), e).
+(* ---- exit status: cmdWrapper.Run's ConvertCommandError = proc.ConvertProcessError ---- *)
 
-(* Output: a plain string logger (log.New(w, "", 0): message ++ "\n") is combined with the caller's loggers and receives
-   every message in the same order; the subprocess is a plain one (no start / end messages). *)
+Definition ctx_kind (k : ctxk) : errk := match k with CtxCancelled => ECancelled | CtxDeadline => ETimeout end.
+
+(* the error as exec reports it (after ConvertContextError when that comes first) *)
+Definition base_kind (o : outcome) : errk :=
+  match o with
+  | Exited c => if c =? 0 then ENil else EExit c
+  | Signaled s => ESignal s
+  | StartCtx k => if conv_ctx_first F then ctx_kind k else EOther
+  | StartNotFound | StartFailed => EOther
+  end.
+
+Definition cond_holds (c : rcond) (o : outcome) : bool :=
+  match c, o with
+  | RcNil, Exited c => c =? 0
+  | RcSignalText l, Signaled s => existsb (Z.eqb s) l
+  | RcExecNotFound, StartNotFound => true
+  | _, _ => false
+  end.
+
+Definition act_result (a : ract) (o : outcome) : errk :=
+  match a with
+  | RaReturn => base_kind o
+  | RaProcessDone => EProcessDone
+  | RaNil => ENil
+  | RaTimeout => ETimeout
+  | RaNotFound => ENotFound
+  | RaForbidden | RaNotImplemented => EOther
+  end.
+
+Fixpoint apply_rules (rs : list (rcond * ract)) (o : outcome) : errk :=
+  match rs with
+  | [] => base_kind o
+  | (c, a) :: r => if cond_holds c o then act_result a o else apply_rules r o
+  end.
+
+Definition convert_process_error (o : outcome) : errk :=
+  if run_converts F then apply_rules (rules F) o else base_kind o.
+
+(* ---- Execute ---- *)
+
+Definition end_entry (e : errk) : entry := if Bool.eqb (is_nil e) (end_ok_iff_nil F) then EEndOk else EEndFail.
+
+Definition ran (o : outcome) : bool := match o with Exited _ | Signaled _ => true | _ => false end.
+
+(* [ctx] = state of the process context when Run returns, [pctx] = state of the context given by the caller. *)
+Definition ctx_of (src : ctxsrc) (ctx pctx : option ctxk) : option ctxk :=
+  match src with CtxProcess => ctx | CtxParent => pctx end.
+
+Fixpoint run_exec (ops : list xop) (wm : bool) (ctx pctx : option ctxk) (o : outcome) (evs : list (stream * bytes))
+         (st : list entry * errk) : list entry * errk :=
+  match ops with
+  | [] => st
+  | XLogStart :: r => run_exec r wm ctx pctx o evs (fst st ++ (if wm then [EStart] else []), snd st)
+  | XRun :: r => run_exec r wm ctx pctx o evs (fst st ++ child_log (if ran o then evs else []), convert_process_error o)
+  | XCtxOverride src :: r =>
+      run_exec r wm ctx pctx o evs
+        (fst st, match snd st with
+                 | ENil => ENil
+                 | e => match ctx_of src ctx pctx with Some k => ctx_kind k | None => e end
+                 end)
+  | XLogEnd :: r => run_exec r wm ctx pctx o evs (fst st ++ (if wm then [end_entry (snd st)] else []), snd st)
+  end.
+
+(* Subprocess.Execute. [wm] = withAdditionalMessages. If the command could not be started there is no child, hence no event. *)
+Definition execute (wm : bool) (ctx pctx : option ctxk) (o : outcome) (evs : list (stream * bytes)) : list entry * errk :=
+  run_exec (exec_seq F) wm ctx pctx o evs ([], ENil).
+
+Definition execute_error (ctx pctx : option ctxk) (o : outcome) : errk := snd (execute true ctx pctx o []).
+
+(* Output: a plain string logger (message ++ "\n") is combined with the caller's loggers and receives every message in
+   the same order. *)
 Definition output_text (log : list entry) : bytes :=
-  flat_map (fun e => match e with ELine _ m => m ++ [NL] | _ => [] end) log.
+  flat_map (fun e => match e with ELine _ m => m ++ [10] | _ => [] end) log.
 
-Definition output (ctx : option ctxk) (o : outcome) (events : list (stream * bytes)) : bytes * list entry * errk :=
-  let '(log, e) := execute false ctx o events in (output_text log, log, e).
+Definition output (ctx pctx : option ctxk) (o : outcome) (evs : list (stream * bytes)) : bytes * list entry * errk :=
+  let '(log, e) := execute (negb (output_plain F)) ctx pctx o evs in
+  (if output_reads_always F || is_nil e then output_text log else [], log, e).
 
 (* projections used by the statements and by the correspondence *)
 Definition proj (s : stream) (log : list entry) : list bytes :=
@@ -200,9 +251,6 @@ Fixpoint lines_eqb (a b : list bytes) : bool :=
   | _, _ => false
   end.
 
-Definition stream_eqb (a b : stream) : bool :=
-  match a, b with SOut, SOut | SErr, SErr => true | _, _ => false end.
-
 Definition entry_eqb (a b : entry) : bool :=
   match a, b with
   | EStart, EStart | EEndOk, EEndOk | EEndFail, EEndFail => true
@@ -231,7 +279,7 @@ Inductive case :=
   | CAdapter (is_stderr : bool) (chunks : list bytes) (per_write : list (list entry)) (flushed : option (list entry))
   (* a real child run by Execute (with_msgs = true) or by a plain subprocess: the bytes the child wrote on each
      stream, how it ended, the context state, and what the recording logger and the caller observed *)
-  | CExec (with_msgs : bool) (ctx : option ctxk) (o : outcome) (out_bytes err_bytes : bytes)
+  | CExec (with_msgs : bool) (ctx pctx : option ctxk) (o : outcome) (out_bytes err_bytes : bytes)
           (log : list entry) (err : errk)
   (* a real child run by Output(): additionally the returned text *)
   | COutput (o : outcome) (out_bytes err_bytes : bytes) (log : list entry) (text : bytes) (err : errk).
@@ -240,7 +288,7 @@ Fixpoint check_writes (s : stream) (pend : bytes) (chunks : list bytes) (per_wri
          (flushed : option (list entry)) : bool :=
   match chunks, per_write with
   | [], [] => match flushed with
-              | Some f => entries_eqb f (tag s (flush pend))
+              | Some f => entries_eqb f (tag s (fst (flush pend)))
               | None => false       (* the fixed adapter has a Flush *)
               end
   | c :: cs, w :: ws => let '(ms, pend') := write_chunk pend c in
@@ -255,8 +303,8 @@ Fixpoint check_writes (s : stream) (pend : bytes) (chunks : list bytes) (per_wri
 Definition strip (with_msgs : bool) (log : list entry) : list entry :=
   if with_msgs then removelast (tl log) else log.
 
-Definition check_exec (with_msgs : bool) (ctx : option ctxk) (o : outcome) (ob eb : bytes) (log : list entry) (err : errk) : bool :=
-  let '(mlog, merr) := execute with_msgs ctx o [(SOut, ob); (SErr, eb)] in
+Definition check_exec (with_msgs : bool) (ctx pctx : option ctxk) (o : outcome) (ob eb : bytes) (log : list entry) (err : errk) : bool :=
+  let '(mlog, merr) := execute with_msgs ctx pctx o [(SOut, ob); (SErr, eb)] in
   errk_eqb err merr
   && (if with_msgs
       then match log with
@@ -271,8 +319,12 @@ Definition check_exec (with_msgs : bool) (ctx : option ctxk) (o : outcome) (ob e
 Definition check_case (c : case) : bool :=
   match c with
   | CAdapter is_stderr chunks per_write flushed =>
-      check_writes (if is_stderr then SErr else SOut) [] chunks per_write flushed
-  | CExec with_msgs ctx o ob eb log err => check_exec with_msgs ctx o ob eb log err
+      check_writes (route is_stderr) [] chunks per_write flushed
+  | CExec with_msgs ctx pctx o ob eb log err => check_exec with_msgs ctx pctx o ob eb log err
   | COutput o ob eb log text err =>
-      check_exec false None o ob eb log err && bytes_eqb text (output_text log)
+      check_exec (negb (output_plain F)) None None o ob eb log err
+      && bytes_eqb text (if output_reads_always F || is_nil err then output_text log else [])
   end.
+
+End Model.
+
